@@ -147,6 +147,7 @@ func checkC16(r *Run) {
 	r.Rule("C16.R1.boundary", "every WherePrefix argument on the relationship/resource tables ends with the key separator ('->' / ':'), every HasSuffix pattern on relationship keys begins with '->', and Traverser.FilterPrefix is only ever RelationshipPrefix(..)", 8)
 	r.Rule("C16.R2.edges", "resourceTable.NewDelete runs only in DeleteResource/DeleteManyResources and only after deleteIncomingRelationships and deleteOutgoingRelationships succeeded for every id being deleted", 4)
 	r.Rule("C16.ERR", "no error returned by a call is discarded in the ontology package except the tabled sites (a swallowed edge clean-up error leaves dangling edges)", 1)
+	r.Rule("C16.R4.append", "no append in the ontology package extends a slice held in a field of a shared object without storing the result back (query builders and key prefixes are shared between concurrent traversals)", 1)
 	r.Rule("C16.R3.self", "the Define* functions refuse source == target before creating (the descendant walk cannot see that cycle)", 2)
 	r.Rule("C16.R3.create", "relationshipTable.NewCreate runs only in DefineRelationship/DefineFromOneToManyRelationships, after validateResourcesExist succeeded for both endpoints and behind 'from is not a descendant of to'; an existing edge yields nil; retrieveDescendants records every child", 8)
 
@@ -158,6 +159,7 @@ func checkC16(r *Run) {
 	checkScanBoundaries(r, p, sep)
 	checkResourceDelete(r, p)
 	checkRelationshipCreate(r, p)
+	checkAppendAliasing(r, p, "C16.R4.append", func(fn *FuncNode) bool { return fn.InPkgs(ontPkg) })
 	checkErrDrop(r, p, "C16.ERR", func(fn *FuncNode) bool { return fn.InPkgs(ontPkg) && !fn.InPkgs(ontPkg+"/signals") }, 100)
 }
 
